@@ -98,7 +98,8 @@ impl MmapUnix {
 //@sub libc::munmap\(self\.addr as \*mut libc::c_void, => libc_munmap(&mut self.addr,
 //@spec
     requires old(self).owns(), // the invariant every holder must have kept
-    ensures !final(self).addr.live@, // [C12] the mapping is released on EVERY path (debug and release builds)
+    // the mapping is released on EVERY path (debug and release builds)
+    ensures !final(self).addr.live@, // [C12]
 //@end
 //@endfn
 }
@@ -249,7 +250,8 @@ impl MmapXenSlice {
 //@fn src/mmap/xen.rs :: impl Drop for MmapXenSlice :: drop :: tags=C17,C07
 //@spec
     requires old(self).inv(),
-    ensures final(self).unix_mmap is None, // [C17,C12] the slice gives up its mapping: nothing is left to be unmapped a second time
+    // the slice gives up its mapping: nothing is left to be unmapped a second time
+    ensures final(self).unix_mmap is None, // [C17,C12]
 //@end
 //@endfn
 }
